@@ -33,6 +33,11 @@ ASSUMPTIONS = [
 ]
 
 
+# "user code raises anything": besides an ordinary exception class, the classes the serve loop itself reads as "the
+# connection is over" - raised by the *method* they are the method's failure and must be answered like any other
+USER_EXC = [UserError, BrokenPipeError, ConnectionResetError, EOFError, StopIteration, pa.ArrowInvalid]
+
+
 def replay_unary(inputs, ob):
     """Real pipe pair, a unary method returning a value pyarrow cannot convert, then a second call."""
     import threading
@@ -78,6 +83,7 @@ def replay_unary(inputs, ob):
 
 @unit("C04.O1 _serve_unary survives any method outcome", targets=["vgi_rpc/rpc/_server.py::RpcServer._serve_unary", "vgi_rpc/rpc/_server.py::RpcServer._prepare_method_call"], replay=replay_unary, min_obligations=30)
 def serve_unary(S):
+    S.ghost["__user_exc_classes__"] = USER_EXC
     c = run_serve_unary(S, writes_may_fail=S.choose(2) == 1)
     W, out = c["W"], c["out"]
     failed_write = bool(S.events("write_failed"))
@@ -112,6 +118,7 @@ class _Hdr(_ASD):
 
 class _StreamProto(_Protocol):
     def boom(self) -> _Stream[_StreamState]: ...
+    def p(self) -> _Stream[_StreamState]: ...
     def s(self) -> _Stream[_StreamState]: ...
     def sh(self) -> _Stream[_StreamState, _Hdr]: ...
     def ok(self) -> int: ...
@@ -123,9 +130,32 @@ class _St(_ProducerState):
         out.finish()
 
 
+_EXC_BY_NAME = {"UserError": ValueError, "BrokenPipeError": BrokenPipeError, "ConnectionResetError": ConnectionResetError, "EOFError": EOFError, "StopIteration": StopIteration, "ArrowInvalid": pa.ArrowInvalid}
+
+
+@_dataclass
+class _RaisingSt(_ProducerState):
+    """emits one batch, then the step raises the exception class the model chose for 'user code raises'"""
+
+    cls_name: str
+    emitted: bool = False
+
+    def produce(self, out, ctx):  # type: ignore[no-untyped-def]
+        if not self.emitted:
+            self.emitted = True
+            out.emit_pydict({"x": [1]})
+            return
+        raise _EXC_BY_NAME[self.cls_name]("the method's own failure")
+
+
 class _StreamImpl:
+    cls_name = "UserError"
+
     def boom(self):  # type: ignore[no-untyped-def]
-        raise ValueError("init failed")
+        raise _EXC_BY_NAME[self.cls_name]("init failed")
+
+    def p(self):  # type: ignore[no-untyped-def]
+        return _Stream(output_schema=pa.schema([pa.field("x", pa.int64())]), state=_RaisingSt(self.cls_name))
 
     def s(self):  # type: ignore[no-untyped-def]
         return 42
@@ -145,7 +175,11 @@ def replay_stream(inputs, ob):
 
     mode = inputs.get("result_mode", "not_a_stream")
     ct, st = make_pipe_pair()
-    server = RpcServer(_StreamProto, _StreamImpl())
+    impl = _StreamImpl()
+    impl.cls_name = inputs.get("user_exception_class", "UserError") if inputs.get("user_exception_class") in _EXC_BY_NAME else "UserError"
+    if mode == "stream":
+        mode = "step_raises"
+    server = RpcServer(_StreamProto, impl)
     th = threading.Thread(target=lambda: server.serve(st), daemon=True)
     th.start()
     res = {}
@@ -153,7 +187,7 @@ def replay_stream(inputs, ob):
     def client():
         with RpcConnection(_StreamProto, ct) as c:
             try:
-                r = c.boom() if mode == "raises" else (c.s() if mode == "not_a_stream" else c.sh())
+                r = c.boom() if mode == "raises" else (c.p() if mode == "step_raises" else (c.s() if mode == "not_a_stream" else c.sh()))
                 list(r)
                 res["first"] = "returned"
             except BaseException as e:
@@ -167,13 +201,14 @@ def replay_stream(inputs, ob):
     t2.start()
     t2.join(5)
     hung = t2.is_alive()
-    return ReplayResult(hung or res.get("ok") != 7, f"stream method init fault '{mode}': first call -> {res.get('first')}, next call -> {'HUNG' if hung else res.get('ok')}; server thread alive={th.is_alive()}")
+    return ReplayResult(hung or res.get("ok") != 7, f"stream method fault '{mode}' ({impl.cls_name}): first call -> {res.get('first')}, next call -> {'HUNG' if hung else res.get('ok')}; server thread alive={th.is_alive()}")
 
 
 @unit("C04.O3 _serve_stream survives any stream outcome", targets=["vgi_rpc/rpc/_server.py::RpcServer._serve_stream"], replay=replay_stream, min_obligations=60, max_paths=30000)
 def serve_stream(S):
     from lib_dispatch import run_serve_stream
 
+    S.ghost["__user_exc_classes__"] = USER_EXC
     c = run_serve_stream(S, writes_may_fail=False)
     W, out, G = c["W"], c["out"], c["G"]
     S.inputs["result_mode"] = c["result_mode"]
